@@ -344,7 +344,9 @@ def graph_to_arr(
         arr, arr_idx = graph_to_clearn(G)
 
     if node_order is not None:
-        new_order = np.searchsorted(node_order, arr_idx)
+        # row/column of every requested node in the exported array
+        position = {node: idx for idx, node in enumerate(arr_idx)}
+        new_order = [position[node] for node in node_order]
         arr = arr[np.ix_(new_order, new_order)]
         arr_idx = [arr_idx[idx] for idx in new_order]
     return arr, arr_idx
